@@ -818,6 +818,16 @@ def build_item(cur, log):
             if toks[lk].text != "for": continue
             hdr = text[toks[lk].start:toks[lo_].start]
             m = re.match(r"for\s+(\w+)\s+in\s+\(\s*(.+?)\s*\.\.\s*(.+?)\s*\)\s*\.rev\(\)\s*$", hdr, re.S)
+            m4 = re.match(r"for\s+(\w+)\s+in\s+(.+?)\s*\.into_iter\(\)\s*\.rev\(\)\s*$", hdr, re.S)
+            if m4:
+                # `for x in E.into_iter().rev() {` -> descending index loop over the Vec E (elements are Copy in the units that use this)
+                v, e_ = m4.group(1), " ".join(m4.group(2).split())
+                vv, kv = f"v__{n_}", f"i__{n_}"
+                last = prev_code(toks, lo_)
+                ed.replace(toks[lk].start, toks[last].end, f"let {vv} = {e_}; let mut {kv} = {vv}.len(); while {kv} > 0")
+                ed.insert(toks[lo_].end, f" {kv} -= 1; let {v} = {vv}[{kv}];")
+                log.append(("R4", where, " ".join(hdr.split())))
+                continue
             if not m: continue
             v, lo_e, hi_e = m.group(1), m.group(2), m.group(3)
             kv = f"{v}__{n_}"
